@@ -122,7 +122,7 @@ def build_scripts(ctx, sched, bursts, tier):
         for rep in range(1 if tier == "quick" else 2):
             c = forced or pl[(j + rep * 3 + rng.randrange(len(pl))) % len(pl)]
             tl, ntail = tail_tokens(U)
-            start = rng.randrange(0, 24)
+            start = rng.randrange(0, 24) if forced is None else rng.randrange(0, 1800 // U)     # clean families: mostly after the first pause
             npk = start + 5 + Lb + 1 + ntail + 1
             if npk > 3900:
                 continue
@@ -167,7 +167,7 @@ def run_streams(ctx, exe, streams, tag):
 
 OBS = dict(fec_frames=0, fec_err=0, plc_err=0, worst_stream_fec_ratio_x1000=None, max_over_level_cdB=-100000, n_over=0,
            max_after_400ms_cdB=-100000, n_after_400ms=0, max_after_1s_cdB=-100000, max_after_2s_cdB=-100000, max_tail_err_rel_cdB=-100000, n_tail=0, drift=0,
-           strong_fec_streams=0, strong_fec_frames=0, worst_strong_fec_ratio_x1000=None, clean_speech_max_after_1s_cdB=-100000, n_clean_speech_after_1s=0)
+           strong_fec_streams=0, strong_fec_frames=0, worst_strong_fec_ratio_x1000=None, clean_speech_max_after_400ms_cdB=-100000, clean_speech_max_after_1s_cdB=-100000, n_clean_speech_after_400ms=0)
 
 
 def read_prints(r, trace=None):
@@ -199,7 +199,7 @@ def read_prints(r, trace=None):
             if OBS["worst_strong_fec_ratio_x1000"] is None or ratio > OBS["worst_strong_fec_ratio_x1000"]:
                 OBS["worst_strong_fec_ratio_x1000"] = ratio
         if n5:
-            OBS["clean_speech_max_after_1s_cdB"] = max(OBS["clean_speech_max_after_1s_cdB"], o5); OBS["n_clean_speech_after_1s"] += n5
+            OBS["clean_speech_max_after_400ms_cdB"] = max(OBS["clean_speech_max_after_400ms_cdB"], o5); OBS["clean_speech_max_after_1s_cdB"] = max(OBS["clean_speech_max_after_1s_cdB"], o5b); OBS["n_clean_speech_after_400ms"] += n5
         if n1:
             OBS["max_over_level_cdB"] = max(OBS["max_over_level_cdB"], o1); OBS["n_over"] += n1
         if n2:
@@ -422,8 +422,8 @@ def run(ctx):
     ctx.notes["calls"] = dict(NEV)
     ctx.notes["thresholds"] = thresholds()
     ctx.notes["observed"] = dict(OBS)
-    if os.environ.get("C09_CAL") != "1" and (OBS["strong_fec_streams"] == 0 or OBS["n_clean_speech_after_1s"] == 0):
-        raise vf.Infra("vacuous replay: strong-FEC streams=%d clean speech-layer calls after 1 s=%d" % (OBS["strong_fec_streams"], OBS["n_clean_speech_after_1s"]))
+    if os.environ.get("C09_CAL") != "1" and (OBS["strong_fec_streams"] == 0 or OBS["n_clean_speech_after_400ms"] == 0):
+        raise vf.Infra("vacuous replay: strong-FEC streams=%d clean speech-layer calls after 400 ms=%d" % (OBS["strong_fec_streams"], OBS["n_clean_speech_after_400ms"]))
     if NEV["fec_lbrr"] == 0 or NEV["plc"] == 0 or OBS["n_after_400ms"] == 0 or OBS["n_tail"] == 0:
         raise vf.Infra("vacuous replay: fec_lbrr=%d plc=%d sustained=%d tails=%d" % (NEV["fec_lbrr"], NEV["plc"], OBS["n_after_400ms"], OBS["n_tail"]))
 
